@@ -476,11 +476,11 @@ theorem FL_C05_compute_sole_last (K : Kind) (L : Leaves α) (P : Params α)
 example : GammaNonneg (GammaFn.dflt : GammaFn α) ∧ GammaNonneg (GammaFn.invK : GammaFn α)
     ∧ GammaNonneg (GammaFn.rankDep : GammaFn α) ∧ GammaNonneg (GammaFn.zero : GammaFn α)
     ∧ GammaNonneg (GammaFn.const 𝟙 : GammaFn α) :=
-  ⟨M.fl1_gammaNonneg_of_tag _ (by intro x h; cases h) (by intro h; cases h),
-   M.fl1_gammaNonneg_of_tag _ (by intro x h; cases h) (by intro h; cases h),
-   M.fl1_gammaNonneg_of_tag _ (by intro x h; cases h) (by intro h; cases h),
-   M.fl1_gammaNonneg_of_tag _ (by intro x h; cases h) (by intro h; cases h),
-   M.fl1_gammaNonneg_of_tag _ (by intro x h; cases h; exact M.fl1_zero_le_one) (by intro h; cases h)⟩
+  ⟨M.fl1_gammaNonneg_of_tag _ (by intro x h; cases h) (by intro h; cases h) (by intro f h; cases h),
+   M.fl1_gammaNonneg_of_tag _ (by intro x h; cases h) (by intro h; cases h) (by intro f h; cases h),
+   M.fl1_gammaNonneg_of_tag _ (by intro x h; cases h) (by intro h; cases h) (by intro f h; cases h),
+   M.fl1_gammaNonneg_of_tag _ (by intro x h; cases h) (by intro h; cases h) (by intro f h; cases h),
+   M.fl1_gammaNonneg_of_tag _ (by intro x h; cases h; exact M.fl1_zero_le_one) (by intro h; cases h) (by intro f h; cases h)⟩
 
 /-- `LeavesNonneg` has a model -/
 example : LeavesNonneg (⟨fun _ _ => 𝟘, fun _ _ => 𝟘, fun _ _ => 𝟘, fun _ _ => 𝟘⟩ : Leaves α) :=
